@@ -138,7 +138,10 @@ var c07dec = gen.Register(&gen.Check[caseC07dec]{
 		c.Via = rapid.SampledFrom([]string{"decode", "decode", "unmarshal", "hex"}).Draw(t, "via")
 		if c.Via == "hex" {
 			txt := c.Data
-			switch gen.Pick(t, "hexKind", 8) {
+			switch gen.Pick(t, "hexKind", 10) {
+			case 8, 9: // what "lenient" parsers tolerate around a hex string: prefixes, suffixes, quotes, white space
+				deco := [][2]string{{"0x", ""}, {"0X", ""}, {"", "\n"}, {" ", ""}, {"", " "}, {"\"", "\""}, {"#", ""}, {"\\x", ""}, {"", "h"}, {"0x", "\n"}, {"+", ""}, {"", "\x00"}, {"\ufeff", ""}, {"", "\r\n"}}[gen.Pick(t, "hexDeco", 14)]
+				txt = deco[0] + txt + deco[1]
 			case 0:
 				txt = strings.ToUpper(txt)
 			case 1: // mixed case
@@ -190,6 +193,12 @@ var c07dec = gen.Register(&gen.Check[caseC07dec]{
 		}
 		max := new(big.Int).Sub(new(big.Int).Lsh(big.NewInt(1), 256), big.NewInt(1))
 		var out []caseC07dec
+		for _, v := range gen.DictFixed(ref.N, gen.DictStride()) {
+			out = append(out, mk(ref.Bytes32(v), "decode"))
+			if w := new(big.Int).Add(v, ref.N); w.BitLen() <= 256 {
+				out = append(out, mk(ref.Bytes32(w), "decode"))
+			}
+		}
 		// exhaustive word-wise neighbourhood of n: every 64-bit limb from {n_i-1, n_i, n_i+1, 0, ff..ff} (625 strings) and
 		// every 32-bit word from {w-1, w, w+1} (6561 strings)
 		for _, v := range append(gen.WordProducts(ref.N, 64, gen.Neighbours5), gen.WordProducts(ref.N, 32, gen.Neighbours3)...) {
@@ -240,6 +249,9 @@ var c07enc = gen.Register(&gen.Check[caseC07enc]{
 	Fixed: func() []caseC07enc {
 		out := []caseC07enc{{S: SV{Hex: gen.H(new(big.Int))}}, {S: SV{Hex: gen.H(bigOne)}}, {S: SV{Hex: gen.H(nm1)}}, {S: SV{Hex: gen.H(big.NewInt(1)), Mont: true}},
 			{S: SV{Hex: gen.H(big.NewInt(7))}, Batch: 300}, {S: SV{Hex: gen.H(nm1)}, Batch: 5000}}
+		for _, v := range gen.DictFixed(ref.N, gen.DictStride()) {
+			out = append(out, caseC07enc{S: SV{Hex: gen.H(v)}}, caseC07enc{S: SV{Hex: gen.H(v), Mont: true}})
+		}
 		for _, m := range gen.WordProducts(new(big.Int), 64, func(w, mask uint64) []uint64 { return gen.LimbPatterns }) {
 			if m.Cmp(ref.N) < 0 {
 				out = append(out, caseC07enc{S: SV{Hex: gen.H(m), Mont: true}})
